@@ -239,7 +239,7 @@ def gen_gated(rng, n, exhaustive_len):
     # exhaustive small scope: every schedule over {0,1} of the given length on 2 chunks per direction
     for m in range(1 << exhaustive_len):
         out.append({"mode": "gated", "up": A, "down": B, "sched": [(m >> i) & 1 for i in range(exhaustive_len)], "counters": bool(m & 1),
-                    "up_eofl": bool(m & 2), "down_eofl": bool(m & 4)})
+                    "up_eofl": bool(m & 2), "down_eofl": bool(m & 4), "shape": ("rwc", "rw", "cw")[m % 3], "use_closer": bool(m & 8)})
     for _ in range(n):
         def chunks(base):
             return [bytes((base + rng.randrange(8)) for _ in range(rng.choice([1, 2, 8, 100, 1000, 32768] if rng.random() < 0.1 else [1, 2, 8, 100])))
@@ -251,10 +251,50 @@ def gen_gated(rng, n, exhaustive_len):
             sched = [i % 2 for i in range(rng.randrange(total + 1))]
         elif k < 0.4:
             sched = [0, 1, 1, 0] * (total // 4 + 1)
+        elif k < 0.55:
+            sched = [1] * (2 * len(down) + 1) + [0] * (2 * len(up) + 1)      # the download direction ends first ...
+        elif k < 0.65:
+            sched = [0] * (2 * len(up) + 1) + [1] * (2 * len(down) + 1)      # ... or the upload direction
         else:
             sched = [rng.choice([0, 0, 0, 1, 1, 1, 2, 5]) for _ in range(rng.randrange(2 * total + 1))]
         out.append({"mode": "gated", "up": up, "down": down, "sched": sched, "counters": rng.random() < 0.6,
-                    "up_eofl": rng.random() < 0.5, "down_eofl": rng.random() < 0.5})
+                    "up_eofl": rng.random() < 0.5, "down_eofl": rng.random() < 0.5,
+                    "shape": rng.choice(["rwc", "rw", "cw"]), "use_closer": rng.random() < 0.4})
+    return out
+
+
+def gen_halfclose(rng, thorough):
+    """order of half-closes x what the forwarder can see of its LocalConn (CloseWrite / Read-Write-Close / Read-Write)"""
+    out = []
+    ups = [1, 200000] + ([2 << 20] if thorough else [])
+    for order in ("peer-first", "local-first"):
+        for local in ("tcp", "pipe"):
+            for shape, closer in (("cw", False), ("rwc", False), ("rwc", True), ("rw", False), ("rw", True)):
+                for up in ups:
+                    out.append({"mode": "halfclose", "order": order, "local": local, "shape": shape, "use_closer": closer,
+                                "counters": rng.random() < 0.5, "up_len": up, "down_len": rng.choice([0, 1, 5000, 70000]),
+                                "seed": rng.randrange(1 << 30)})
+    return out
+
+
+def gen_dec_all_types(rng):
+    """every type byte x {legal, just oversize, 0xFFFFFFFF} declared length (the decoder must reject, never panic)"""
+    out = []
+    for ty in range(256):
+        tid = rng.randbytes(16)
+        for ln, payload in ((3, b"abc"), (MAXF + 1, rng.randbytes(rng.choice([0, 30]))), (0xFFFFFFFF, b"")):
+            out.append({"mode": "dec", "wire": (tid + bytes([ty]) + ln.to_bytes(4, "big") + payload).hex(),
+                        "cuts": rng.choice([[], [1] * 30, [16, 1, 4, 2]])})
+    return out
+
+
+def gen_stream_hostile_types(rng):
+    """the same oversize headers, for every type byte, arriving on a connection read by a real FrameStream"""
+    out = []
+    for ty in range(256):
+        raw = pad16(b"h") + bytes([ty]) + rng.choice([MAXF + 1, 1 << 20, 0xFFFFFFFF]).to_bytes(4, "big") + rng.randbytes(rng.randrange(0, 30))
+        out.append({"mode": "stream", "writers": [hx("h")], "reader": hx("h"), "reader_cw": ty % 2 == 0,
+                    "ops": [{"k": "w", "w": 0, "data": "0102"}, {"k": "raw", "data": raw.hex()}], "caps": [], "dcap": 64})
     return out
 
 
@@ -363,13 +403,15 @@ def gen_tid(rng, n):
 def case_values(c, o):
     """the universal values Corr/C10.check expects (a tid case expands to one value per string)"""
     hb = bytes.fromhex
+    if c["mode"] in ("dec", "enc") and any(x["consumed"] < 0 for x in o.get("obs") or []):
+        return []   # the decoder panicked: no result to compare, already reported by the predicate (decoder-panic)
     if c["mode"] in ("dec", "enc"):
         fr = None
         if c["mode"] == "enc":
             fr = [[[hb(f["tid"]), f["ty"], hb(f["data"])] for f in c["frames"]]]
         obs = [[1, hb(x["tid"]), x["ty"], hb(x["data"]), x["consumed"]] if x["ok"] else [0, x["eof"], x["consumed"]] for x in o["obs"]]
         return [[0, fr, hb(o["wire"]), list(c["cuts"]), obs]]
-    if c["mode"] in ("conc", "fwd", "duplex"):
+    if c["mode"] in ("conc", "fwd", "duplex", "halfclose"):
         return []
     if c["mode"] == "gated":
         if "up_final" not in o and not o["prop_ok"]:
@@ -524,12 +566,14 @@ def run(ctx, only_cases=None):
         cases += gen_gated(rng, 2000 if thorough else 200, 11 if thorough else 7)
         cases += gen_duplex(rng, thorough)
         cases += gen_fwdcut(rng, 400 if thorough else 60)
+        cases += gen_halfclose(rng, thorough)
+        cases += gen_stream_hostile_types(rng)
     resolve_ids(binary, cases)
     outs = vlib.run_harness(binary, cases, timeout=1500)
     if only_cases is None:
         wires = [o["wire"] for c, o in zip(cases, outs) if c["mode"] in ("enc", "stream") and 0 < o["wire_len"] < 3000]
         rng.shuffle(wires)
-        raw = gen_dec(rng, wires[:(2500 if thorough else 150)], 20 if thorough else 5)
+        raw = gen_dec_all_types(rng) + gen_dec(rng, wires[:(2500 if thorough else 150)], 20 if thorough else 5)
         outs += vlib.run_harness(binary, raw, timeout=1500)
         cases += raw
 
@@ -555,7 +599,7 @@ def run(ctx, only_cases=None):
     # (ii) model vs implementation
     values, owner = [], []
     for i, (c, o) in enumerate(zip(cases, outs)):
-        if c["mode"] == "stream" and o.get("term") not in ("eof", "err"):
+        if c["mode"] == "stream" and o.get("term") not in ("eof", "err"):   # hung / spun / panicked
             continue    # reader hung / spun: already reported by the predicate, nothing to compare
         for v in case_values(c, o):
             values.append(v)
@@ -593,6 +637,7 @@ def run(ctx, only_cases=None):
             "stream_with_foreign_or_unknown_frames": 0, "stream_with_colliding_wire_id": 0, "stream_dribbled_over_tcp": 0,
             "tid_strings": 0, "frames_total": 0, "stream_ops_total": 0, "decoder_error_kinds": {}, "reader_terminations": {}}
     max_alloc = 0
+    oversize_types = set()
     for c, o in zip(cases, outs):
         h = hashlib.sha256(json.dumps(c, sort_keys=True).encode()).hexdigest()
         distinct.add(h)
@@ -604,6 +649,9 @@ def run(ctx, only_cases=None):
                 nontrivial.add(h)
         elif c["mode"] == "dec":
             dist["dec_malformed"] += 1
+            w = bytes.fromhex(c["wire"][:42])
+            if len(w) == 21 and int.from_bytes(w[17:21], "big") > MAXF:
+                oversize_types.add(w[16])
             last = o["obs"][-1]
             k = "eof" if last["eof"] else ("too-large-or-short@%d" % min(last["consumed"], 22))
             dist["decoder_error_kinds"][k] = dist["decoder_error_kinds"].get(k, 0) + 1
@@ -625,6 +673,11 @@ def run(ctx, only_cases=None):
         elif c["mode"] == "gated":
             dist["forwarder_gated_schedules"] = dist.get("forwarder_gated_schedules", 0) + 1
             if c["up"] and c["down"] and 0 in c["sched"] and 1 in c["sched"]:
+                nontrivial.add(h)
+        elif c["mode"] == "halfclose":
+            k = "forwarder_half_close_%s_shape_%s" % (c["order"].replace("-", "_"), c["shape"])
+            dist[k] = dist.get(k, 0) + 1
+            if c["up_len"] > 32768:
                 nontrivial.add(h)
         elif c["mode"] == "fwdcut":
             dist["forwarder_oracle_source_runs"] = dist.get("forwarder_oracle_source_runs", 0) + 1
@@ -665,6 +718,7 @@ def run(ctx, only_cases=None):
         "model_vs_impl_values": len(values), "model_vs_impl_mismatches": len(mism),
         "impl_property_failures": nfail, "impl_property_failures_by_key": reported,
         "max_alloc_delta_bytes_per_ReadFrameFromReader_call": max_alloc,
+        "type_bytes_seen_with_oversize_length_by_the_decoder": len(oversize_types),
         "input_distribution": dist, "generated_file_changed": gen_changed,
         "tree_variant_TunnelIDFromString": "hashes ids longer than 16 bytes (fixes/C10-wire-id-hash.diff or equivalent)" if hashing_tree
                                            else "truncates to 16 bytes (pinned; known finding wire-id-truncation)",
